@@ -134,7 +134,8 @@ func (demuxer *Demuxer) Close() error {
 	}
 
 	demuxer.closed = true
-	demuxer.recvQueue.Signal()
+	// wake up through the queue lock: a bare Signal can be lost
+	demuxer.recvQueue.Push(nil)
 	return nil
 }
 
